@@ -2451,6 +2451,7 @@ func main() {
 
 	if *subset == "cut" {
 		tierCut(r, *cutStride)
+		tierCutFan(r, *cutStride)
 		return
 	}
 
